@@ -213,4 +213,20 @@ theorem opsOf_frame (mode : SaveMode) (size : β → Nat) (fn : α → β) (f : 
   have := saveOps_paths mode size k (fn v) o (opsOf_sub mode size fn f k v cut o ho) (.final k') q
   simp [Ne.symm hk] at this
 
+/-- a list that never gives one name two different inputs is the graph of a function on names -/
+theorem respects_of_separate {ν : Type} [DecidableEq ν] (l : List (ν × α)) (d : α)
+    (h : ∀ a ∈ l, ∀ b ∈ l, a.1 = b.1 → a.2 = b.2) :
+    Respects (fun n => match l.find? (fun kv => decide (kv.1 = n)) with | some kv => kv.2 | none => d) l := by
+  intro kv hkv
+  simp only []
+  cases hf : l.find? (fun x => decide (x.1 = kv.1)) with
+  | none =>
+    have := List.find?_eq_none.mp hf kv hkv
+    simp at this
+  | some kv' =>
+    have h1 := List.find?_some hf
+    have h2 := List.mem_of_find?_eq_some hf
+    simp only [decide_eq_true_eq] at h1
+    exact (h kv' h2 kv hkv h1).symm
+
 end Mxl.C19
